@@ -224,6 +224,54 @@ fn scenario_sequential_writers(m: &mut TransactionManager, e: EntityId) -> (r: (
     (both, t1)
 }
 
+/// C04 over the contracts alone: the write-skew shape. T1 and T2 (Serializable) both read A and B from the same snapshot;
+/// T2 writes B and commits first; T1 then writes A: T1's commit must be refused.
+fn scenario_write_skew(m: &mut TransactionManager, a: EntityId, b: EntityId) -> (r: (bool, bool))
+    requires old(m).next_tx_id < u64::MAX - 2, old(m).current_epoch < u64::MAX - 4,
+    ensures r.0 ==> !r.1,      // if T2 committed, T1 did not
+{
+    let t1 = m.begin_with_isolation(IsolationLevel::Serializable);
+    let t2 = m.begin_with_isolation(IsolationLevel::Serializable);
+    let r1 = m.record_read(t1, a);
+    let r2 = m.record_read(t1, b);
+    let r3 = m.record_read(t2, a);
+    let r4 = m.record_read(t2, b);
+    let w2 = m.record_write(t2, b);
+    assert(r1 is Ok && r2 is Ok && r3 is Ok && r4 is Ok && w2 is Ok);
+    let ghost e0 = m.current_epoch;
+    let c2 = m.commit(t2);
+    let w1 = m.record_write(t1, a);
+    let ghost T = m.transactions@;
+    let ghost C = m.committed_epochs@;
+    let c1 = m.commit(t1);
+    proof {
+        if c2 is Ok {
+            assert(w1 is Ok);
+            assert(T[t1].read_set@.contains(b) && T[t2].write_set@.contains(b));
+            assert(meets(T[t1].read_set@, T[t2].write_set@));
+            assert(C[t2].0 == e0 + 1 && T[t1].start_epoch.0 == e0);
+            assert(T[t1].isolation_level == IsolationLevel::Serializable);
+            assert(overlaps_on(T, C, t1, t2, T[t1].read_set@));
+        }
+    }
+    (c2.is_ok(), c1.is_ok())
+}
+
+/// C20 over the contracts alone (sequentially): identifiers handed out by begin are pairwise distinct and commit epochs increase.
+fn scenario_fresh_ids_and_epochs(m: &mut TransactionManager) -> (r: (TxId, TxId))
+    requires old(m).next_tx_id < u64::MAX - 2, old(m).current_epoch < u64::MAX - 4,
+    ensures r.0 != r.1,
+{
+    let t1 = m.begin_with_isolation(IsolationLevel::SnapshotIsolation);
+    let t2 = m.begin_with_isolation(IsolationLevel::ReadCommitted);
+    let c1 = m.commit(t1);
+    let c2 = m.commit(t2);
+    proof {
+        if c1 is Ok && c2 is Ok { assert(c2->Ok_0.0 == c1->Ok_0.0 + 1); }
+    }
+    (t1, t2)
+}
+
 } // verus!
 fn main() {}
 '''
